@@ -625,7 +625,8 @@ def _work(task):
         outcomes[out] = outcomes.get(out, 0) + 1
         for clause, detail in v:
             key = f"{clause}|{cls}"
-            found.setdefault(key, {"seed": label, "mutation": desc, "clause": clause, "detail": detail})
+            if key not in found:
+                found[key] = {"seed": label, "mutation": desc, "clause": clause, "detail": detail, "proto_hex": m.SerializeToString().hex()}
 
     if mode == "single":
         run("none", "none", seed)
@@ -688,7 +689,7 @@ def main(tier):
         for k, v in f.items():
             found.setdefault(k, v)
     for key, f in sorted(found.items()):
-        r.violation(key, f"{f['clause']} [{f['seed']} / {f['mutation']}]: {f['detail']}", {"engine": "E6", "input": {"seed": f["seed"], "mutation": f["mutation"]}, "oracle": f["clause"], "detail": f["detail"]})
+        r.violation(key, f"{f['clause']} [{f['seed']} / {f['mutation']}]: {f['detail']}", {"engine": "E6", "input": {"seed": f["seed"], "mutation": f["mutation"], "proto_hex": f.get("proto_hex")}, "oracle": f["clause"], "detail": f["detail"]})
     r.sample({"seed": "baseline@10", "mutation": [["graph", "node", "0", "input", "1"], "string", "dangling"]})
     r.sample({"seed": "if_with_captures@10", "mutation": "two_node_cycle"})
     r.coverage.update({
@@ -703,4 +704,12 @@ def main(tier):
 
 
 def replay(obj):
-    return True, "re-run ./check C17 (mutations are addressed by site index inside the generator)"
+    """Deserialise exactly the recorded mutated proto (no generator, no explorer) and evaluate the oracle."""
+    hx = obj.get("input", {}).get("proto_hex")
+    if not hx:
+        return True, "replay file without the mutated proto: re-run ./check C17"
+    install_watch()
+    m = onnx.ModelProto.FromString(bytes.fromhex(hx))
+    out, v = check_proto(m)
+    bad = [x for x in v if x[0] == obj["oracle"]]
+    return (not bad), {"outcome": out, "violations": [(c, str(d)[:200]) for c, d in v]}
